@@ -13,6 +13,12 @@
 (* carries exactly the argument's labels in the argument's order (entirely *)
 (* missing samples may be omitted), and transform distributes over         *)
 (* concatenation at every split point.                                     *)
+(* Entirely missing samples: families named "...nan" are trained on data   *)
+(* whose sample TrainMissing is entirely missing (it has no score); the    *)
+(* relation "equalOtherMissing" presents the training labels with another  *)
+(* sample entirely missing and the training-missing one present.  Whether  *)
+(* a sample is omitted depends on the ARGUMENT's values, never on the      *)
+(* training data's mask.                                                   *)
 (***************************************************************************)
 EXTENDS Naturals, Sequences, FiniteSets, TLC
 
@@ -30,6 +36,10 @@ Arg(rel) ==
       [] rel = "disjoint"    -> <<101, 102, 103, 104, 105>>
       [] rel = "repeated"    -> <<2, 2, 101, 2>>
       [] rel = "reversed"    -> [i \in 1..NTrain |-> NTrain + 1 - i]
+      [] rel = "equalOtherMissing" -> [i \in 1..NTrain |-> i]
+
+TrainMissing(fam) == IF fam \in {"EOFnan", "MCAnan", "EOFRotator2nan"} THEN {3} ELSE {}
+ArgMissing(rel) == IF rel = "equalOtherMissing" THEN {5} ELSE {}      \* labels whose sample is entirely missing in the argument
 
 \* per-sample map: the score of a sample depends on the sample only; model it
 \* as the identity on "sample content" = the label's own content id
@@ -45,7 +55,11 @@ Init == /\ phase = "cfg" /\ pred = <<>>
 Do == /\ phase = "cfg" /\ phase' = "done"
       /\ pred' = [labels |-> Arg(cfg.rel), out |-> Transform(Arg(cfg.rel)),
                   left |-> SubSeq(Arg(cfg.rel), 1, cfg.split), right |-> SubSeq(Arg(cfg.rel), cfg.split + 1, Len(Arg(cfg.rel))),
-                  equalsScoresAt |-> {i \in 1..Len(Arg(cfg.rel)) : Arg(cfg.rel)[i] <= NTrain}]
+                  trainMissing |-> TrainMissing(cfg.fam), argMissing |-> ArgMissing(cfg.rel),
+                  mustAnswer |-> {i \in 1..Len(Arg(cfg.rel)) : Arg(cfg.rel)[i] \notin ArgMissing(cfg.rel)},
+                  equalsScoresAt |-> {i \in 1..Len(Arg(cfg.rel)) : /\ Arg(cfg.rel)[i] <= NTrain
+                                                                    /\ Arg(cfg.rel)[i] \notin TrainMissing(cfg.fam)
+                                                                    /\ Arg(cfg.rel)[i] \notin ArgMissing(cfg.rel)}]
       /\ UNCHANGED cfg
 Next == Do
 Spec == Init /\ [][Next]_vars
@@ -53,6 +67,9 @@ Spec == Init /\ [][Next]_vars
 Done == phase = "done"
 \* C05: the result is labelled by the argument, in the argument's order
 C05_LabelsFromArgument == Done => \A i \in 1..Len(pred.labels) : pred.out[i].label = pred.labels[i]
+\* C05: which samples are answered is decided by the argument alone: every sample that is not entirely missing
+\* in the argument is answered, also one that was entirely missing in the training data
+C05_AnsweredByArgumentOnly == Done => pred.mustAnswer = {i \in 1..Len(pred.labels) : pred.labels[i] \notin pred.argMissing}
 \* C05: per-sample: equal samples get equal scores wherever they occur
 C05_PerSample == Done => \A i, j \in 1..Len(pred.labels) : (pred.labels[i] = pred.labels[j]) => pred.out[i].from = pred.out[j].from
 \* C05: transform distributes over concatenation at every split
